@@ -133,6 +133,13 @@ def judge(t):
         for p in puts.get(m, []):
             if p.kw.get('data') != c.res[1]:
                 V('C19.3-verbatim', 'text written for borrowed %s is not the borrower\'s text' % m, what='not-verbatim')
+        # ground truth for time-comparing searchers: a stored copy that is not older than the borrower's copy makes borrowing unnecessary
+        if not opts.get('rebuild') and isinstance(c.res, tuple):
+            bm = getattr(c.res[0], 'mtime', None)
+            newer = [i_ for i_, se in enumerate(scn.get('searchers', ())) if se.get('flavour') == 'age' and se.get('have', {}).get(m) is not None and bm is not None and se['have'][m] >= bm]
+            if newer and (puts.get(m) or s == 'borrowed'):
+                V('C19.3-verbatim', 'searcher %d holds a copy of %s that is not older than the borrower\'s (%s >= %s), yet the borrowed copy was %s' % (
+                    newer[0], m, scn['searchers'][newer[0]]['have'][m], bm, 'written' if puts.get(m) else 'reported borrowed'), what='borrowed-over-fresher-copy', module=m)
         if s == 'borrowed' and opts.get('writeMibs', True) and not any(p.ok for p in puts.get(m, [])):
             # "written verbatim under the module's name with status borrowed": the status says the copy was stored
             V('C19.3-verbatim', 'module %s is reported borrowed but its copy was never handed to the writer successfully' % m, what='borrowed-not-stored', module=m)
